@@ -17,9 +17,14 @@ EXPLANATION = (
     "(iv) no container is modified while being iterated in tick-reachable code; (v) tick-reachable "
     "code opens cgroup files only relative to a held directory fd except at the enumerated path-based "
     "sites, so a vanished/re-created cgroup yields an error, not another cgroup's data; (vi) the "
-    "abort sites reachable from the tick are the enumerated ones.  std::sto* on the text of a present "
+    "abort sites reachable from the tick are the enumerated ones; (vii) no thread started from tick "
+    "code lets an exception leave its entry; (viii) loop progress: in tick-reachable code every loop "
+    "whose condition depends on local state only changes some loop-carried local on every iteration "
+    "path (a non-advancing 'continue' would spin for ever), with one audited path in Senpai::run that "
+    "is dead as long as CgroupContext::id() only fails when fstat on the held fd fails - which is "
+    "checked.  std::sto* on the text of a present "
     "kernel file is outside the fault model (kernel grammar).  Freedom from all undefined behaviour "
-    "and from hangs is not decided.")
+    "and from hangs by blocking calls or externally controlled loops is not decided.")
 RULE_SUMMARY = "E-ESCAPE from the main-loop roots, E-MISC index_guard / sibling_agreement / erase_in_iteration, who-may-call (by-fd discipline), frozen abort table"
 NOT_DECIDED = ["absence of all undefined behaviour", "absence of hangs", "file contents outside the kernel grammar"]
 ASSUMPTIONS = ["present kernel files follow the kernel's grammar (numbers parse)",
@@ -167,6 +172,13 @@ def max_index(fn, idx):
     return None
 
 
+# iteration paths that change no loop-carried local, with the reason they cannot be taken (checked below)
+AUDITED_NO_PROGRESS = {
+    ("Oomd::Senpai::run", "id_opt"): "taken only if CgroupContext::id() is nullopt, i.e. fstat on the held directory fd failed (assumption of this check; "
+                                     "the two obligations id-fails-only-when-fstat-fails and id-is-inode-of-held-fd keep the path dead for removed/re-created cgroups)",
+}
+
+
 def run(ctx):
     # locals / parameters the rules below refer to by name (a rename makes the analysis 'broken', never a violation)
     ctx.anchor(ctx.fn1('Oomd::Fs::readDirFromDIR'), 'de', 'flags')
@@ -219,6 +231,60 @@ def run(ctx):
                       creator.pq, "; ".join("%s at %s" % (s.what, s.loc()) for s, _ in esc[:3])), esc[0][1] if esc else None)
     ctx.counters["tick_helper_threads"] = n_thr
     ctx.floor("tick_helper_threads", 1, "threads started from tick code (Senpai timed_invoke)")
+    # ------------------------------------------------ (i-b) no hang by a non-advancing iteration (loop progress)
+    from ..misc import loop_progress
+    n_loops = 0
+    for u in sorted(tick_fns):
+        f = P.fns[u]
+        if not f.file.startswith("oomd/"):
+            continue
+        res, n_ex = loop_progress(P, cg, f)
+        n_loops += n_ex
+        for L, ctl, bad in res:
+            ctx.use(f)
+            for b, line, conds in bad:
+                t = f.blocks[b].get("term") or {}
+                ctext = ""
+                if t.get("cond") is not None and t.get("cond") >= 0:
+                    refs = [f.nodes[x]["name"] for x in f.walk(t["cond"]) if f.nodes[x]["k"] == "ref" and f.nodes[x].get("dk") == "local"]
+                    ctext = refs[0] if len(set(refs)) == 1 else f.text(t["cond"])
+                aud = AUDITED_NO_PROGRESS.get((f.pq, ctext))
+                inst = "loop-progress:%s@%s" % (short(f), ctext or line)
+                if aud:
+                    ctx.ok(inst, "loop-progress(audited)", "%s:%s" % (f.file, line), aud)
+                    ctx.count("audited_no_progress_paths")
+                else:
+                    ctx.violation(inst, "loop-progress", "%s:%s" % (f.file, line or f.nodes[L["stmt"]].get("line")),
+                                  "the loop at %s is controlled by local state only (%s) and the path leaving the test at line %s goes round without "
+                                  "changing any of it: the same iteration repeats for ever and the tick never ends" % (
+                                      f.loc(L["stmt"]), ", ".join(x[2:].split("@")[0] for x in ctl), line))
+    ctx.counters["loops_examined_for_progress"] = n_loops
+    ctx.floor("loops_examined_for_progress", 8, "locally controlled loops in tick-reachable code")
+    # the audited path (Senpai::run: 'continue' without advancing when the cgroup has no id) is dead only while a context
+    # always has an id: id() is the inode of the held directory fd, which fails only if fstat on that fd fails
+    if AUDITED_NO_PROGRESS:
+        ino = ctx.fn1("Oomd::Fs::Fd::inode")
+        fi = Flow(P, ino, cg=cg)
+        ok_ino, n_err = True, 0
+        for r in returns(ino):
+            t = ret_text(ino, r)
+            g = fi.guards(r)
+            succeeded = any(p is True and re.match(r"^\(0 == (::)?fstat\(", k) for k, p in g) or any(p is False and re.match(r"^\(0 != (::)?fstat\(|^\((::)?fstat\(.*\) != 0\)$", k) for k, p in g)
+            failed = any(p is False and re.match(r"^\(0 == (::)?fstat\(", k) for k, p in g)
+            is_err = "systemError(" in t or "SYSTEM_ERROR" in t
+            if is_err:
+                n_err += 1
+                ok_ino = ok_ino and failed
+            else:
+                ok_ino = ok_ino and succeeded
+        ctx.check(ok_ino and n_err >= 1, "id-fails-only-when-fstat-fails:Fs::Fd::inode", "return_table", ino.loc(),
+                  "inode() reports an error exactly on the fstat failure edge (a held fd of a removed cgroup still has an inode)",
+                  "inode() can fail although fstat succeeded (e.g. for an unlinked directory): CgroupContext::id() becomes nullopt for a removed "
+                  "cgroup, which makes the non-advancing 'continue' in Senpai::run reachable - the tick loops for ever")
+        ids = [g_ for g_ in P.fns.values() if g_.pq == "Oomd::CgroupContext::id"]
+        ctx.check(len(ids) == 1 and [ids[0].text(i) for i in ids[0].calls("Fd::inode")] == ["this->cgroup_dir_.inode()"], "id-is-inode-of-held-fd", "provenance",
+                  ids[0].loc() if ids else "-", "CgroupContext::id() is the inode of the held directory fd", "CgroupContext::id() is no longer cgroup_dir_.inode()")
+    ctx.tables["audited_no_progress"] = {"%s / %s" % k: v for k, v in AUDITED_NO_PROGRESS.items()}
     ctx.counters["accepted_escape_sites"] = n_acc
     ctx.ok("escape-analysis", "E-ESCAPE", main.loc(), "%d throw sites examined from %d roots" % (len(seen), len(roots)))
     ctx.tables["accepted_escapes"] = {"%s/%s" % k: v for k, v in ACCEPTED_ESCAPES.items()}
